@@ -45,8 +45,12 @@ def main():
            't0': time.monotonic(), 'pid': os.getpid()}
     pc = scen['pool']
 
+    started = [False]
+
     def on_up(w):
         obs['ups'].append([w.pid, time.monotonic()])
+        if started[0] and pc.get('slow_up'):
+            time.sleep(pc['slow_up'])     # a slow on_process_up callback
 
     def on_down(w):
         obs['downs'].append([w.pid, w.exitcode, time.monotonic()])
@@ -62,8 +66,7 @@ def main():
         on_process_exit=functools.partial(rtargets.on_exit, tmpdir),
         max_restarts=pc.get('max_restarts'), enable_timeouts=True,
     )
-    for w in pool._pool:
-        obs['ups'].append([w.pid, time.monotonic()])
+    started[0] = True
     handles = {}
     state = {'pool': pool}
 
@@ -236,6 +239,15 @@ def main():
                 rec['t_signal'] = time.monotonic()
                 if pid:
                     rec['sent'] = kill_pid(pid, signal.SIGTERM)
+            elif op == 'kill_idle_n':
+                busy = set()
+                for tag, (kind, h) in handles.items():
+                    if h is not None and not h.ready():
+                        busy.update(h.worker_pids())
+                idle = [w.pid for w in pool._pool if w.pid not in busy]
+                rec['pids'] = idle[:step[1]]
+                for pid in idle[:step[1]]:
+                    kill_pid(pid, step[2])
             elif op == 'kill_idle':
                 busy = set()
                 for tag, (kind, h) in handles.items():
